@@ -209,7 +209,21 @@ func structVariants(f *fn, st int) []variant {
 	if len(paths) == 0 {
 		return nil
 	}
-	return pathVariants(paths)
+	vs := pathVariants(paths)
+	if f.name == "path_open" { // each hostile path also with O_CREAT and O_DIRECTORY
+		var out []variant
+		for _, v := range vs {
+			for _, ofl := range []uint64{0, 1, 2} {
+				nv := variant{name: v.name + fmt.Sprintf("oflags=%d", ofl), patches: v.patches, args: map[int]uint64{4: ofl}}
+				for k, a := range v.args {
+					nv.args[k] = a
+				}
+				out = append(out, nv)
+			}
+		}
+		return out
+	}
+	return vs
 }
 
 // structCase builds the concrete case: default arguments with the variant's overrides.
